@@ -601,6 +601,10 @@ class C01:
             name, src = "nat", c10.nat_program(sc["nseed"])
             base_cfg = {}
         src = sc.get("source", src)         # (a minimised replay file carries its own text)
+        if sc.get("force_collection_at_marker"):
+            # one collection, forced where the program's text says /*GC*/, on a thread with the native stack of a host's main
+            # thread (8 MiB): the comparison run is the same program without it
+            return self.check_forced(sc, ctx, stats, src)
         one = {"programs": [{"kind": "snippet", "source": src}], "tape": [], "faults": {}, "fs": fs}
         stats.inc("scenarios")
         stats.inc("foreign:" + fam)
@@ -656,6 +660,27 @@ class C01:
                 return res
         if res["nontrivial"]:
             stats.inc("foreign_programs_in_which_objects_were_reclaimed")
+        return res
+
+    def check_forced(self, sc, ctx, stats, src):
+        res = {"stats": stats, "nontrivial": True, "key": stable_hash(["forced", src]), "scenario": dict(sc, source=src)}
+        cfg = {"gc": {"mode": "never", "quarantine": True}, "stack_mib": int(sc.get("stack_mib", 8))}
+        outs = []
+        for label, text in (("no collection", src.replace("/*GC*/", "")), ("one forced collection", src.replace("/*GC*/", 'print(("gc",));'))):
+            h = ctx.run("checked+hooks", {"programs": [{"kind": "snippet", "source": text}], "tape": [], "faults": {}, "fs": {}, "config": cfg})
+            stats.inc("executions")
+            po = process_outcome(h)
+            if po and label == "no collection":
+                return res
+            if po:
+                res["violation"] = {"class": po[0], "config": "checked+hooks", "msg": "[%s] %s (the same program without the collection completes)" % (label, po[1])}
+                return res
+            outs.append([(p_["events"], p_["outcome"].get("ok"), p_["outcome"].get("err")) for p_ in h["programs"]])
+            if (h.get("gc") or {}).get("uar_count", 0) > 0:
+                res["violation"] = {"class": "use-after-reclaim", "config": "checked+hooks", "msg": "[%s] %d use(s) of reclaimed objects" % (label, h["gc"]["uar_count"])}
+                return res
+        if outs[0] != outs[1]:
+            res["violation"] = {"class": "output-depends-on-collector", "config": "checked+hooks", "msg": "the forced collection changes the program's output"}
         return res
 
     def check(self, sc, ctx):
